@@ -704,6 +704,25 @@ fn fp_whitening_method(v: &WhiteningMethod, p: &P, f: &mut Fingerprint) {
     f.text("debug", &format!("{v:?}"));
     fp_whitener_params(&Whitener::pca().method(v.clone()), p, f);
 }
+/// ten features: rows long enough for unrolled / blocked inner products, whose summation order
+/// depends on the memory layout of the stored matrices
+fn whiten_train_wide(p: &P) -> Array2<f64> {
+    dense_train(p, 403, 10)
+}
+fn build_whitener_wide<const K: u8>(p: &P) -> FittedWhitener<f64> {
+    whitener_of(K).fit(&DatasetBase::from(whiten_train_wide(p))).expect("whitener fit")
+}
+fn fp_whitener_wide(m: &FittedWhitener<f64>, p: &P, f: &mut Fingerprint) {
+    let x = whiten_train_wide(p);
+    let q = dense_query(p, 403, &x);
+    f.arr("transformation_matrix", &m.transformation_matrix());
+    f.arr("mean", &m.mean());
+    f.arr("transform_train", &m.transform(x.clone()));
+    f.arr("transform_query", &m.transform(q.clone()));
+    for i in 0..q.nrows().min(3) {
+        f.arr(&format!("transform_single{i}"), &m.transform(row(&q, i)));
+    }
+}
 fn build_whitener<F: Fl, const K: u8>(p: &P) -> FittedWhitener<F> {
     let x: Array2<F> = cast(&whiten_train(p));
     whitener_of(K).fit(&DatasetBase::from(x)).expect("whitener fit")
@@ -1156,6 +1175,53 @@ fn fp_cv_valid_fn_unguarded(v: &CountVectorizerValidParams, p: &P, f: &mut Finge
     }
 }
 
+/// a token pattern with anchors, and documents of several lines: what `^` and `$` match depends
+/// on flags that are not part of the pattern text
+fn multiline_docs(p: &P, tag: u64) -> Array1<String> {
+    let d = docs(p, tag);
+    Array1::from(d.iter().enumerate().map(|(i, s)| if i % 2 == 0 { s.replacen(' ', "\n", 2) } else { format!("{s}\nlast line") }).collect::<Vec<_>>())
+}
+fn build_cv_anchored(p: &P) -> CountVectorizer {
+    CountVectorizer::params().tokenizer(Tokenizer::Regex(r"^\w+|\w\w+$".to_string())).fit(&multiline_docs(p, 51)).expect("count-vectoriser fit")
+}
+fn fp_cv_anchored(m: &CountVectorizer, p: &P, f: &mut Fingerprint) {
+    fp_vocabulary(m.vocabulary(), m.nentries(), f);
+    for (tag, d) in [("train", multiline_docs(p, 51)), ("unseen", multiline_docs(p, 52))] {
+        match m.transform(&d) {
+            Ok(c) => fp_sparse(m.vocabulary(), &c, tag, f),
+            Err(e) => f.err(&format!("transform_{tag}"), &e),
+        }
+    }
+}
+/// a parameter object that was used for a fit, then given another token pattern and used again,
+/// against a parameter object built from scratch with the same final settings
+fn cv_params_reused(p: &P) -> Fingerprint {
+    let mut f = Fingerprint::new();
+    let docs = train_docs(p);
+    let first = CountVectorizer::params().n_gram_range(1, 2);
+    let run = |params: &CountVectorizerParams| -> u64 {
+        let mut g = Fingerprint::new();
+        match params.fit(&docs) {
+            Ok(m) => fp_cv(&m, p, &mut g),
+            Err(e) => g.err("fit", &e),
+        }
+        g.digest()
+    };
+    // `fit` takes the parameter object by reference: whatever it memoises stays inside it
+    let a = run(&first);
+    f.one("first_fit", a);
+    // the same object, fitted once already, gets another tokenizer
+    let pattern = r"\b[a-z][a-z][a-z]+\b";
+    let reused = run(&first.clone().tokenizer(Tokenizer::Regex(pattern.to_string())));
+    let again = run(&first);
+    let reused_moved = run(&first.tokenizer(Tokenizer::Regex(pattern.to_string())));
+    let fresh = run(&CountVectorizer::params().n_gram_range(1, 2).tokenizer(Tokenizer::Regex(pattern.to_string())));
+    f.must_agree("vectoriser_fitted_through_a_reused_parameter_object_(clone)_vs_a_fresh_one", reused, fresh);
+    f.must_agree("vectoriser_fitted_through_a_reused_parameter_object_vs_a_fresh_one", reused_moved, fresh);
+    // and the very same call twice on the same object
+    f.must_agree("same_fit_twice_through_one_parameter_object", a, again);
+    f
+}
 fn build_cv<const K: u8>(p: &P) -> CountVectorizer {
     cv_params(K, p).fit(&train_docs(p)).expect("count-vectoriser fit")
 }
@@ -1475,6 +1541,9 @@ pub fn register(r: &mut Registry) {
     r.model::<FittedWhitener<f64>>("whiten_model_pca", PRE, FW, None, build_whitener::<f64, 0>, fp_whitener::<f64>, Some(|a, b| a == b));
     r.model::<FittedWhitener<f64>>("whiten_model_zca", PRE, FW, None, build_whitener::<f64, 1>, fp_whitener::<f64>, Some(|a, b| a == b));
     r.model::<FittedWhitener<f64>>("whiten_model_cholesky", PRE, FW, None, build_whitener::<f64, 2>, fp_whitener::<f64>, Some(|a, b| a == b));
+    r.model::<FittedWhitener<f64>>("whiten_model_pca_wide", PRE, FW, None, build_whitener_wide::<0>, fp_whitener_wide, Some(|a, b| a == b));
+    r.model::<FittedWhitener<f64>>("whiten_model_zca_wide", PRE, FW, None, build_whitener_wide::<1>, fp_whitener_wide, Some(|a, b| a == b));
+    r.model::<FittedWhitener<f64>>("whiten_model_cholesky_wide", PRE, FW, None, build_whitener_wide::<2>, fp_whitener_wide, Some(|a, b| a == b));
     r.model::<FittedWhitener<f32>>("whiten_model_zca_f32", PRE, FW, None, build_whitener::<f32, 1>, fp_whitener::<f32>, Some(|a, b| a == b));
     const WP: &[&str] = &["Whitener", "WhiteningMethod"];
     r.model::<Whitener>("whiten_params_pca", PRE, WP, None, build_whitener_params::<0>, fp_whitener_params, Some(|a, b| a == b));
@@ -1508,6 +1577,8 @@ pub fn register(r: &mut Registry) {
     r.model::<CountVectorizer>("cv_model_raw_case", PRE, CVM, None, build_cv::<1>, fp_cv, None);
     r.model::<CountVectorizer>("cv_model_combined", PRE, CVM, None, build_cv::<8>, fp_cv, None);
     r.model::<CountVectorizer>("cv_model_regex_tokenizer", PRE, CVM, None, build_cv::<9>, fp_cv, None);
+    r.model::<CountVectorizer>("cv_model_regex_anchored_multiline", PRE, CVM, None, build_cv_anchored, fp_cv_anchored, None);
+    r.scenario("cv_params_reused", PRE, Kind::Claim, false, cv_params_reused);
     r.model::<CountVectorizer>("cv_model_given_vocabulary", PRE, CVM, None, build_cv_given::<2>, fp_cv, None);
     r.model::<CountVectorizer>("cv_model_fn_tokenizer", PRE, CVM, None, build_cv::<10>, fp_cv_fn_tokenizer, None);
     r.model::<CountVectorizer>("cv_model_fn_tokenizer_ngram_cap", PRE, CVM, None, build_cv::<11>, fp_cv_fn_tokenizer, None);
